@@ -221,5 +221,49 @@ pub fn encode_ops(ops: &[vh::SymbolOps]) -> Vec<u64> {
     out
 }
 
+/// [T, count, nread, nopvals, opvals..., data(count*T)...] -> symbols 0..nread-1 read through the mapping
+pub fn slab_replay(a: &[u64]) -> Vec<u64> {
+    let (t, count, nread, nv) = (a[0] as usize, a[1] as usize, a[2] as usize, a[3] as usize);
+    let ops = decode_ops(&a[4..4 + nv]);
+    let data = bytes(&a[4 + nv..]);
+    let syms: Vec<raptorq::Symbol> = data.chunks(t.max(1)).take(count).map(|c| raptorq::Symbol::new(c.to_vec())).collect();
+    let mut slab = raptorq::SymbolSlab::from_symbols(syms, t);
+    for op in ops.iter() {
+        vh::perform_op(op, &mut slab);
+    }
+    let mut out = vec![];
+    for i in 0..nread {
+        out.extend(slab.get(i).iter().map(|&b| b as u64));
+    }
+    out
+}
+
+pub fn decode_ops(v: &[u64]) -> Vec<vh::SymbolOps> {
+    let mut ops = vec![];
+    let mut i = 0;
+    while i < v.len() {
+        match v[i] {
+            1 => {
+                ops.push(vh::SymbolOps::AddAssign { dest: v[i + 1] as usize, src: v[i + 2] as usize });
+                i += 3;
+            }
+            2 => {
+                ops.push(vh::SymbolOps::MulAssign { dest: v[i + 1] as usize, scalar: raptorq::Octet::new(v[i + 2] as u8) });
+                i += 3;
+            }
+            3 => {
+                ops.push(vh::SymbolOps::FMA { dest: v[i + 1] as usize, src: v[i + 2] as usize, scalar: raptorq::Octet::new(v[i + 3] as u8) });
+                i += 4;
+            }
+            _ => {
+                let n = v[i + 1] as usize;
+                ops.push(vh::SymbolOps::Reorder { order: v[i + 2..i + 2 + n].iter().map(|&x| x as usize).collect() });
+                i += 2 + n;
+            }
+        }
+    }
+    ops
+}
+
 #[allow(dead_code)]
 pub fn unused(_: PayloadId) {}
